@@ -5,6 +5,7 @@ CONSTANTS
   Conts <- cConts
   MaxList = 2
   MaxNodes = 5
+  PairNodes = 0
   DoEmit = TRUE
 INVARIANTS ThmOnePerScalar ThmResolves ThmNoAttr Emit
 CHECK_DEADLOCK FALSE
